@@ -749,6 +749,8 @@ class TypedTree(Tree):
         if value_map is True or isinstance(value_map, dict):
             if value_map is True:
                 value_map = self.DEFAULT_VALUE_MAP.copy()
+            else:
+                value_map = value_map.copy()  # don't modify the caller's dict
 
             if "kind" not in value_map:
                 counter = Counter()
